@@ -18,6 +18,7 @@ type Chan[T any] struct {
 	slotClk   [][]int // clocks published by the receives, consumed by later sends (capacity edge)
 	slotSync  [][]int
 	closeSync []int
+	closeClk  []int
 	buf       []T
 	capa      int
 	closed    bool
@@ -76,15 +77,26 @@ func (c *Chan[T]) allPending(self *Thread, send bool) []*Thread {
 			continue
 		}
 		op := t.pending
+		if op.kind == opSelect && op.hasDef {
+			continue // a select with default never parks: it is nobody's rendezvous partner
+		}
 		if send {
-			if op.kind == opSend && op.ch == chanI(c) {
+			m := op.kind == opSend && op.ch == chanI(c)
+			if op.kind == opSelect {
+				for i, cc := range op.cases {
+					if cc == chanI(c) && op.isSendCase(i) {
+						m = true
+					}
+				}
+			}
+			if m {
 				r = append(r, t)
 			}
 		} else {
 			m := op.kind == opRecv && op.ch == chanI(c)
 			if op.kind == opSelect {
-				for _, cc := range op.cases {
-					if cc == chanI(c) {
+				for i, cc := range op.cases {
+					if cc == chanI(c) && !op.isSendCase(i) {
 						m = true
 					}
 				}
@@ -98,15 +110,11 @@ func (c *Chan[T]) allPending(self *Thread, send bool) []*Thread {
 	return r
 }
 
-// pendingRecv / pendingSend: a blocked partner; while an op is being performed (picking)
-// the choice among several partners is a branch frame, not FIFO.
+// pendingRecv / pendingSend: is there a blocked partner at all (enabledness queries).
 func (c *Chan[T]) pendingRecv(self *Thread) *Thread {
 	ps := c.allPending(self, false)
 	if len(ps) == 0 {
 		return nil
-	}
-	if c.s.picking {
-		return ps[c.s.pickAlt(len(ps), "which-receiver")]
 	}
 	return ps[0]
 }
@@ -116,10 +124,49 @@ func (c *Chan[T]) pendingSend(self *Thread) *Thread {
 	if len(ps) == 0 {
 		return nil
 	}
-	if c.s.picking {
-		return ps[c.s.pickAlt(len(ps), "which-sender")]
-	}
 	return ps[0]
+}
+
+// prepare is called by the scheduler when an op on c is picked, BEFORE its clock and races
+// are computed: it takes the branch choices of the step (which blocked partner is served) and
+// records what causally precedes it, so that the joint transition is judged as a whole.
+func (c *Chan[T]) prepare(self *Thread, op *Op, send bool) {
+	if c == nil {
+		return
+	}
+	s := c.s
+	if send {
+		if c.closed {
+			return
+		}
+		if len(c.buf) == 0 {
+			if ps := c.allPending(self, false); len(ps) > 0 {
+				op.partner = ps[s.pickAlt(len(ps), "which-receiver")]
+			}
+		}
+		return
+	}
+	if len(c.buf) > 0 {
+		if len(c.msgClk) > 0 {
+			op.preClk = c.msgClk[0]
+		}
+		if len(c.buf) == c.capa {
+			// a sender blocked on the full buffer is let in by this receive
+			if ps := c.allPending(self, true); len(ps) > 0 {
+				op.letIn = ps[s.pickAlt(len(ps), "which-sender")]
+			}
+		}
+		return
+	}
+	if c.capa == 0 {
+		if ps := c.allPending(self, true); len(ps) > 0 {
+			op.partner = ps[s.pickAlt(len(ps), "which-sender")]
+			return
+		}
+	}
+	if c.closed {
+		op.preClk = c.closeClk // the close is what enables a receive on a drained channel
+	}
 }
 
 func (c *Chan[T]) canSend(self *Thread) bool {
@@ -163,32 +210,35 @@ func (c *Chan[T]) Send(v T) {
 		t.log("send", c.label())
 		return
 	}
-	if c == nil {
-		panic("vs: send on nil chan scheduled")
-	}
-	if c.closed {
-		panic("send on closed channel")
-	}
 	lbl := ""
 	if HistHash {
 		lbl = s.valLabel(any(v))
 	}
-	var r *Thread
-	if len(c.buf) == 0 {
-		s.picking = true
-		r = c.pendingRecv(t)
-		s.picking = false
+	c.performSend(t, v, op)
+	t.log("send", c.label(), lbl)
+}
+
+// performSend: the effect of a scheduled send of v by t (plain send or select send case).
+func (c *Chan[T]) performSend(t *Thread, v T, op *Op) {
+	if c == nil {
+		panic("vs: send on nil chan scheduled")
 	}
-	if r != nil {
+	s := c.s
+	if c.closed {
+		panic("send on closed channel")
+	}
+	if r := op.partner; r != nil {
 		c.deliver(r, v, true)
 		r.pending.joinClk = s.curStepClk
 		r.pending.joinSync = s.curSyncClk
 	} else {
+		if len(c.buf) >= c.capa {
+			panic("vs: send scheduled but not enabled")
+		}
 		c.buf = append(c.buf, v)
 		c.msgClk = append(c.msgClk, s.curStepClk)
 		c.msgSync = append(c.msgSync, s.curSyncClk)
 	}
-	t.log("send", c.label(), lbl)
 }
 
 // deliver completes the pending recv/select of r with value v.
@@ -199,12 +249,38 @@ func (c *Chan[T]) deliver(r *Thread, v T, ok bool) {
 	op.ok = ok
 	if op.kind == opSelect {
 		for i, cc := range op.cases {
-			if cc == chanI(c) {
+			if cc == chanI(c) && !op.isSendCase(i) {
 				op.selIdx = i
 				break
 			}
 		}
 	}
+}
+
+// takeFromSender: the value a pending sender (plain send or select send case) offers on c;
+// marks its op completed.
+func (c *Chan[T]) takeFromSender(snd *Thread) T {
+	var v T
+	op := snd.pending
+	var raw interface{} = op.val
+	if op.kind == opSelect {
+		for i, cc := range op.cases {
+			if cc == chanI(c) && op.isSendCase(i) {
+				op.selIdx = i
+				raw = op.svals[i]
+				break
+			}
+		}
+	}
+	if raw != nil {
+		v = raw.(T)
+	}
+	op.completed = true
+	return v
+}
+
+func (c *Chan[T]) strictlySendable() bool {
+	return c != nil && (c.closed || len(c.buf) < c.capa)
 }
 
 func (c *Chan[T]) Recv2() (T, bool) {
@@ -252,14 +328,10 @@ func (c *Chan[T]) finishRecv(t *Thread, op *Op) (T, bool) {
 			c.msgSync = c.msgSync[1:]
 		}
 		// a sender blocked on a full buffer can now complete
-		s.picking = true
-		snd := c.pendingSend(t)
-		s.picking = false
-		if snd != nil {
-			c.buf = append(c.buf, snd.pending.val.(T))
+		if snd := op.letIn; snd != nil {
+			c.buf = append(c.buf, c.takeFromSender(snd))
 			c.msgClk = append(c.msgClk, s.clocks[snd])
 			c.msgSync = append(c.msgSync, s.syncClk[snd])
-			snd.pending.completed = true
 			snd.pending.joinClk = s.curStepClk
 			snd.pending.joinSync = s.curSyncClk
 			c.nsend++ // the completed send never passes through slotClock()
@@ -268,18 +340,8 @@ func (c *Chan[T]) finishRecv(t *Thread, op *Op) (T, bool) {
 		c.slotSync = append(c.slotSync, s.curSyncClk)
 		return v, true
 	}
-	var snd *Thread
-	if c.capa == 0 {
-		s.picking = true
-		snd = c.pendingSend(t)
-		s.picking = false
-	}
-	if snd != nil {
-		var v T
-		if snd.pending.val != nil {
-			v = snd.pending.val.(T)
-		}
-		snd.pending.completed = true
+	if snd := op.partner; snd != nil {
+		v := c.takeFromSender(snd)
 		snd.pending.joinClk = s.curStepClk
 		snd.pending.joinSync = s.curSyncClk
 		s.clocks[t] = joinClk(s.clockOf(t), s.clocks[snd])
@@ -312,6 +374,7 @@ func (c *Chan[T]) Close() {
 	}
 	c.closed = true
 	c.closeSync = s.curSyncClk
+	c.closeClk = s.curStepClk
 	t.log("close", c.label())
 }
 
@@ -348,6 +411,40 @@ func Case[T any](c *Chan[T]) *RecvCase[T] { return &RecvCase[T]{c: c} }
 type SelCase interface {
 	ch() chanI
 	take(t *Thread, op *Op, fromPartner bool)
+	send() (bool, interface{})
+	valLabel(s *Sched) string
+}
+
+func (rc *RecvCase[T]) valLabel(s *Sched) string {
+	if !HistHash {
+		return ""
+	}
+	return s.valLabel(any(rc.V)) + fmt.Sprint(rc.Ok)
+}
+func (sc *SendCaseT[T]) valLabel(s *Sched) string { return "" }
+
+func (rc *RecvCase[T]) send() (bool, interface{}) { return false, nil }
+
+// SendCaseT is a `case ch <- v:` clause of a select.
+type SendCaseT[T any] struct {
+	c *Chan[T]
+	v T
+}
+
+func SendCase[T any](c *Chan[T], v T) *SendCaseT[T] { return &SendCaseT[T]{c: c, v: v} }
+
+func (sc *SendCaseT[T]) ch() chanI {
+	if sc.c == nil {
+		return nil
+	}
+	return sc.c
+}
+func (sc *SendCaseT[T]) send() (bool, interface{}) { return true, sc.v }
+func (sc *SendCaseT[T]) take(t *Thread, op *Op, fromPartner bool) {
+	if fromPartner {
+		return // a receiver already took the value
+	}
+	sc.c.performSend(t, sc.v, op)
 }
 
 func (rc *RecvCase[T]) ch() chanI {
@@ -365,7 +462,7 @@ func (rc *RecvCase[T]) take(t *Thread, op *Op, fromPartner bool) {
 		rc.Ok = op.ok
 		return
 	}
-	o2 := &Op{kind: opRecv, ch: rc.c}
+	o2 := &Op{kind: opRecv, ch: rc.c, partner: op.partner, letIn: op.letIn}
 	rc.V, rc.Ok = rc.c.finishRecv(t, o2)
 }
 
@@ -383,45 +480,26 @@ func doSelect(hasDef bool, cases []SelCase) int {
 	op := &Op{kind: opSelect, since: s.arrival, hasDef: hasDef}
 	for _, c := range cases {
 		op.cases = append(op.cases, c.ch())
+		isSend, v := c.send()
+		op.dirs = append(op.dirs, isSend)
+		op.svals = append(op.svals, v)
 	}
 	t.pending = op
 	s.reschedule(t, false)
 	if op.completed {
 		cases[op.selIdx].take(t, op, true)
-		t.log("select", fmt.Sprint(op.selIdx))
+		t.log("select", fmt.Sprint(op.selIdx), cases[op.selIdx].valLabel(s))
 		return op.selIdx
 	}
-	ready := []int{}
-	strict := false
-	for i, c := range op.cases {
-		if c != nil && !isNilChan(c) && c.canRecv(t) {
-			ready = append(ready, i)
-			if c.strictlyReady() {
-				strict = true
-			}
-		}
-	}
-	if len(ready) == 0 {
+	idx := op.selCase
+	if idx < 0 {
 		if hasDef {
 			t.log("select", "default")
 			return -1
 		}
 		panic("vs: select scheduled but no case ready")
 	}
-	k := 0
-	if hasDef && !strict {
-		// every ready case depends on a partner that is pending at its send: in Go the partner
-		// may not have arrived yet, so default is a possible outcome too
-		k = s.pickAlt(len(ready)+1, "select-or-default")
-		if k == len(ready) {
-			t.log("select", "default")
-			return -1
-		}
-	} else if len(ready) > 1 {
-		k = s.pickAlt(len(ready), "select")
-	}
-	idx := ready[k]
 	cases[idx].take(t, op, false)
-	t.log("select", fmt.Sprint(idx))
+	t.log("select", fmt.Sprint(idx), cases[idx].valLabel(s))
 	return idx
 }
